@@ -72,11 +72,18 @@ type c33Slot struct {
 	pending  []*c33Pending
 	ownerSeq map[presence.RouteIdentity]uint64
 	tomb     map[presence.RouteIdentity]uint64
+	// dead holds the tokens of candidates the model no longer knows (committed,
+	// aborted, superseded, purged by an unregister). They stay in the workload:
+	// committing one must never make anything visible.
+	dead [][2]presence.PendingRouteToken
+	// purged marks dead tokens that were dropped by an unregister purge
+	purged map[presence.PendingRouteToken]bool
 }
 
 func c33NewSlot(t presence.RouteTarget) *c33Slot {
 	return &c33Slot{target: t, active: map[presence.RouteIdentity]presence.Route{},
-		ownerSeq: map[presence.RouteIdentity]uint64{}, tomb: map[presence.RouteIdentity]uint64{}}
+		ownerSeq: map[presence.RouteIdentity]uint64{}, tomb: map[presence.RouteIdentity]uint64{},
+		purged: map[presence.PendingRouteToken]bool{}}
 }
 
 func c33SameAuthority(a, b presence.RouteTarget) bool {
@@ -194,6 +201,7 @@ func (s *c33Slot) dropPending(p *c33Pending) {
 	for i, q := range s.pending {
 		if q == p {
 			s.pending = append(s.pending[:i:i], s.pending[i+1:]...)
+			s.dead = append(s.dead, p.tokens)
 			return
 		}
 	}
@@ -239,6 +247,8 @@ func (s *c33Slot) unregister(id presence.RouteIdentity, seq uint64) {
 	kept := s.pending[:0:0]
 	for _, p := range s.pending {
 		if p.route.Identity() == id && p.route.OwnerSeq <= seq {
+			s.dead = append(s.dead, p.tokens)
+			s.purged[p.tokens[0]] = true
 			continue
 		}
 		kept = append(kept, p)
@@ -319,6 +329,11 @@ type c33World struct {
 	failed     bool
 	// per-history non-triviality facts
 	staleRejectedNonEmpty, tombFenced, properExpiry, committed, multiRoute int
+	// deadPrev keeps tokens issued by earlier authority incarnations of a hash slot
+	deadPrev map[uint16][][2]presence.PendingRouteToken
+	// purgedTokenTried counts commit/abort attempts on a token whose candidate
+	// was purged by an unregister
+	purgedTokenTried int
 }
 
 func (w *c33World) logf(format string, a ...any) {
@@ -723,17 +738,21 @@ func (w *c33World) step(opIdx int) {
 		w.opBecome()
 	case x < 11:
 		w.opLose()
-	case x < 41:
-		w.opRegister()
-	case x < 50:
+	case x < 37:
+		w.opRegister(nil)
+	case x < 43:
+		w.opRetryRegister()
+	case x < 52:
 		w.opCommitAbort(true)
-	case x < 54:
+	case x < 56:
 		w.opCommitAbort(false)
-	case x < 65:
+	case x < 60:
+		w.opDrain()
+	case x < 71:
 		w.opUnregister()
-	case x < 82:
+	case x < 86:
 		w.opTouch()
-	case x < 90:
+	case x < 93:
 		w.opExpire()
 	default:
 		w.opLookup()
@@ -742,6 +761,18 @@ func (w *c33World) step(opIdx int) {
 
 func (w *c33World) resetSlotTracking(h uint16) {
 	delete(w.tomb, h)
+}
+
+// archiveTokens remembers every token of an authority incarnation that is
+// about to be dropped, so later steps can replay them against its successors.
+func (w *c33World) archiveTokens(h uint16, s *c33Slot) {
+	for _, p := range s.pending {
+		w.deadPrev[h] = append(w.deadPrev[h], p.tokens)
+	}
+	w.deadPrev[h] = append(w.deadPrev[h], s.dead...)
+	if n := len(w.deadPrev[h]); n > 24 {
+		w.deadPrev[h] = w.deadPrev[h][n-24:]
+	}
 }
 
 func (w *c33World) opBecome() {
@@ -809,6 +840,7 @@ func (w *c33World) opBecome() {
 	} else {
 		if cur != nil {
 			w.prevTgts[h] = append(w.prevTgts[h], cur.target)
+			w.archiveTokens(h, cur)
 			w.r.Count("become.replaced_incarnation", 1)
 		}
 		w.slots[h] = c33NewSlot(t)
@@ -828,6 +860,7 @@ func (w *c33World) opLose() {
 	}
 	if s := w.slots[h]; s != nil {
 		w.prevTgts[h] = append(w.prevTgts[h], s.target)
+		w.archiveTokens(h, s)
 		delete(w.slots, h)
 		w.resetSlotTracking(h)
 		w.r.Count("lose.installed", 1)
@@ -836,11 +869,59 @@ func (w *c33World) opLose() {
 	w.checkState("lose")
 }
 
-func (w *c33World) opRegister() {
-	t, label := w.pickTarget()
+// slotWithPending returns a hash slot that currently has pending candidates.
+func (w *c33World) slotWithPending() []uint16 {
+	var hs []uint16
+	for _, h := range c33HashSlots {
+		if s := w.slots[h]; s != nil && len(s.pending) > 0 {
+			hs = append(hs, h)
+		}
+	}
+	if len(hs) == 0 {
+		return nil
+	}
+	return []uint16{hs[w.rng.IntN(len(hs))]}
+}
+
+// opRetryRegister re-registers the identity of an outstanding conflict
+// candidate (a client/owner retry): same OwnerSeq, a newer one, an older one,
+// or changed device metadata — producing several pending tokens per identity.
+func (w *c33World) opRetryRegister() {
+	hs := w.slotWithPending()
+	if hs == nil {
+		w.opRegister(nil)
+		return
+	}
+	s := w.slots[hs[0]]
+	p := s.pending[w.rng.IntN(len(s.pending))]
+	r := p.route
+	r.ConnectedUnix, r.LastSeenUnix = w.clk, 0
+	switch w.rng.IntN(10) {
+	case 0, 1:
+		r.OwnerSeq++
+	case 2:
+		if r.OwnerSeq > 1 {
+			r.OwnerSeq--
+		}
+	case 3:
+		r.Listener = "retry"
+	case 4:
+		r.DeviceID = []string{"d1", "d2"}[w.rng.IntN(2)]
+	}
+	if r.OwnerSeq > w.lastSeq[r.Identity()] {
+		w.lastSeq[r.Identity()] = r.OwnerSeq
+	}
+	w.r.Count("register.retry_of_pending", 1)
+	w.opRegister(&r, hs[0])
+}
+
+func (w *c33World) opRegister(forced *presence.Route, prefer ...uint16) {
+	t, label := w.pickTarget(prefer...)
 	s := w.valid(t)
 	r := w.genRoute()
-	if s != nil && w.rng.IntN(6) == 0 {
+	if forced != nil {
+		r = *forced
+	} else if s != nil && w.rng.IntN(6) == 0 {
 		if rr, ok := w.genTombReplay(s); ok {
 			r = rr
 		}
@@ -896,6 +977,16 @@ func (w *c33World) opRegister() {
 		w.shape.WriteString("s")
 	case p != nil:
 		w.r.Count("register.pending", 1)
+		same := 0
+		for _, q := range s.pending {
+			if q.route.Identity() == p.route.Identity() {
+				same++
+			}
+		}
+		if same >= 2 {
+			w.r.Count("register.pending_same_identity_again", 1)
+			w.r.Max("max_pending_per_identity", same)
+		}
 		w.shape.WriteString("p")
 	default:
 		w.r.Count("register.active", 1)
@@ -1326,7 +1417,8 @@ func TestVerifC33(t *testing.T) {
 		rng := r.Rand(33, uint64(i))
 		w := &c33World{r: r, rng: rng, slots: map[uint16]*c33Slot{}, lastTgt: map[uint16]presence.RouteTarget{},
 			prevTgts: map[uint16][]presence.RouteTarget{}, tomb: map[uint16]map[presence.RouteIdentity]uint64{},
-			lastSeq: map[presence.RouteIdentity]uint64{}, clk: c33BaseUnix + 10}
+			lastSeq: map[presence.RouteIdentity]uint64{}, clk: c33BaseUnix + 10,
+			deadPrev: map[uint16][][2]presence.PendingRouteToken{}}
 		if rng.IntN(2) == 0 {
 			w.local = 9
 		}
